@@ -53,7 +53,7 @@ PRAGMAS = ["#pragma once", "#pragma", "#pragma omp parallel for private(i)", "#p
 def plan(tier, seed):
     n = 16
     specs = [{"name": f"pairs-{i}", "mode": "pairs", "shard": i, "nshards": n} for i in range(n)]
-    nseq = 300 if tier == "quick" else 12000
+    nseq = 1500 if tier == "quick" else 12000
     for i in range(8):
         specs.append({"name": f"seq-{i}", "mode": "seq", "n": nseq, "rseed": seed * 977 + i})
     L = 4 if tier == "quick" else 5
